@@ -607,10 +607,11 @@ def Wr.write (_w : Wr) (x : Scn) (withPps : Bool) : PB × Wr :=
   let m := fillScn (.msg []) x withPps
   (m, ⟨m⟩)
 
-/-- a history of calls on one writer object; the files it produces, in order -/
-def Wr.run (w : Wr) (x : Scn) : List Bool → List PB
+/-- a history of calls on one writer object; the files it produces, in order.  The writer holds a REFERENCE to its
+    scenario, which may be edited between the calls: every call comes with the content the scenario has at that moment. -/
+def Wr.run (w : Wr) : List (Scn × Bool) → List PB
   | [] => []
-  | b :: r => (w.write x b).1 :: Wr.run (w.write x b).2 x r
+  | c :: r => (w.write c.1 c.2).1 :: Wr.run (w.write c.1 c.2).2 r
 
 /-! ### what makes the writer raise -/
 
@@ -650,6 +651,13 @@ def encodePb (T : Tables) (x : Scn) : Res PB :=
   match (encScn x).check T with
   | some e => .error e
   | none => .ok (encScn x)
+
+/-- the same history with the writer's exceptions: a call whose scenario cannot be written raises (nothing is written) and
+    the next call starts from a fresh message all the same -/
+def Wr.runChecked (T : Tables) (w : Wr) (calls : List (Scn × Bool)) : List (Res PB) :=
+  (w.run calls).map fun m => match m.check T with
+    | some e => .error e
+    | none => .ok m
 
 /-! ## Reader: `XxxFactory.create_from_message` (file_reader_protobuf.py) -/
 
